@@ -329,4 +329,27 @@ TablesOK(d, fmt, obs, dev) ==
                   /\ \A k \in DOMAIN src : GridMatches(src[k], fmt, nonempty[k], dev)
                \/ ("Rtf!NeighbourTablesMerged" \in dev /\ fmt = "rtf" /\ Len(src) > 1
                      /\ MergedMatch(src, nonempty, fmt, dev))
+
+(* ------------------ C13: typed spreadsheet values keep their value ------------------
+   A typed data cell is named by its kind; the observation is a record
+     [k |-> "num", n2 |-> 2 * value]  (numbers, exact for multiples of 0.5)   [k |-> "bool", b |-> BOOLEAN]
+     [k |-> "str", s |-> text]        [k |-> "ids", v |-> token ids]          [k |-> "other", s |-> repr]
+   The writer puts: n = 7, nf = 1.5, b = TRUE, d = 2024-01-02T03:04:05, date = 2024-01-02, t = 03:04:05,
+   e = #DIV/0! (error value), f = formula with cached result 2.5, s = one token, empty = nothing.       *)
+TypedAcceptable(kind, oc) ==
+    CASE kind = "n"     -> oc.k = "num" /\ oc.n2 = 14
+      [] kind = "nf"    -> oc.k = "num" /\ oc.n2 = 3
+      [] kind = "b"     -> oc.k = "bool" /\ oc.b = TRUE
+      [] kind = "d"     -> oc.k = "str" /\ oc.s = "2024-01-02T03:04:05"              \* dates as ISO strings
+      [] kind = "date"  -> oc.k = "str" /\ oc.s \in {"2024-01-02", "2024-01-02T00:00:00"}
+      [] kind = "t"     -> oc.k = "str" /\ oc.s \in {"03:04:05", "PT03H04M05S"}       \* either ISO 8601 form
+      [] kind = "e"     -> oc.k = "str" /\ oc.s = "#DIV/0!"
+      [] kind = "f"     -> oc.k = "num" /\ oc.n2 = 5                                  \* formula result
+      [] kind = "s"     -> oc.k = "ids" /\ Len(oc.v) = 1
+      [] kind = "empty" -> oc.k = "ids" /\ oc.v = <<>>
+
+TypedRowOK(kinds, row) ==
+    /\ Len(row) >= Len(kinds) \/ \A j \in (Len(row) + 1)..Len(kinds) : kinds[j] = "empty"
+    /\ \A j \in DOMAIN row : IF j <= Len(kinds) THEN TypedAcceptable(kinds[j], row[j])
+                                               ELSE row[j].k = "ids" /\ row[j].v = <<>>
 =============================================================================
